@@ -317,3 +317,11 @@ package labelmap
 //@   modifies ghost errReplied
 //@   ghostset at "queryStrings := r.URL.Query()": errReplied = false
 //@   assert at "numAdded, numDeleted, err := putProtoLabelIndices(ctx, dataIn)": !errReplied
+
+// getScale (C20): the scale query parameter is used only if it fits the uint8 it is stored in - an
+// out-of-range value must not alias a valid level (256 -> 0 would make a request for a non-existent
+// level read or overwrite the full-resolution data).
+//@ func getScale
+//@   prop C20
+//@   modifies *
+//@   assert at "scale = uint8(scaleInt)": 0 <= scaleInt && scaleInt <= 255
